@@ -3,9 +3,11 @@ use crate::exec::Checker;
 use crate::trace::Trace;
 
 pub mod c08;
+pub mod c09;
 pub mod c11;
 pub mod c12;
 pub mod c14;
+pub mod c20;
 pub mod common;
 
 pub struct Nop;
@@ -17,6 +19,8 @@ pub fn make_checker(trace: &Trace, session: usize) -> Box<dyn Checker> {
         "C11" => Box::new(c11::C11Checker::new(trace, session)),
         "C08" => Box::new(c08::C08Checker::new(trace, session)),
         "C12" => Box::new(c12::C12Checker::new(trace, session)),
+        "C09" => Box::new(c09::C09Checker::new(trace, session)),
+        "C20" => Box::new(c20::C20Checker::new(trace, session)),
         _ => Box::new(Nop),
     }
 }
